@@ -22,8 +22,17 @@ import (
 // Terminating events, session states (DESIGN.md C10).
 var (
 	Events = []string{"client-close", "server-close", "write-fail-client", "write-fail-server",
-		"proto-error-client", "proto-error-server", "closing"}
+		"proto-error-client", "proto-error-server", "closing",
+		// both sides go away: a clean close of one side, then the other side closes / resets / its writes fail
+		"server-then-client-close", "client-then-server-close"}
 	States = []string{"idle", "mid-stream", "blocked", "chan-full"}
+	// WriteBlockedEvents: the events enumerated in the "write-blocked" state (the server has stopped
+	// reading, the relay's write toward it is blocked in the socket and the client->server reader is
+	// parked behind it). Events that only the parked client->server reader could observe
+	// (client-close, proto-error-client) are not enumerated there, see notes/C10.md.
+	WriteBlockedEvents = []string{"server-close", "write-fail-client", "write-fail-server", "proto-error-server", "closing"}
+	// DialingEvents: events while the upstream TLS handshake is still in progress.
+	DialingEvents = []string{"closing", "client-close", "write-fail-server"}
 )
 
 // Cell is one (event x state x delayed direction) case; Idx selects the PRNG.
@@ -158,8 +167,11 @@ type session struct {
 	fdAtReturn int
 	returned   int32
 
-	delayByPush   bool // the delayed direction is parked pushing into the peer's full output channel (no hook marker)
-	srvObservable bool // the server still reads: it will see the relay's close as EOF/reset
+	hsGate        chan struct{} // dialing cells: the harness server starts its TLS handshake when this closes
+	hsAbort       int32         // dialing cells: reset the TCP connection instead of handshaking
+	hsDone        chan error    // result of the server-side handshake
+	delayByPush   bool          // the delayed direction is parked pushing into the peer's full output channel (no hook marker)
+	srvObservable bool          // the server still reads: it will see the relay's close as EOF/reset
 	cliAlive      bool
 	srvAlive      bool // server can still write
 	open          []uint32
@@ -351,26 +363,40 @@ func (s *session) start() bool {
 	s.cliAlive = true
 	s.nextID = 1
 
-	type acc struct {
-		raw *net.TCPConn
-		tc  *tls.Conn
-		err error
+	rawCh := make(chan *net.TCPConn, 1)
+	s.hsDone = make(chan error, 1)
+	if s.cell.State == "dialing" {
+		s.hsGate = make(chan struct{})
 	}
-	ach := make(chan acc, 1)
 	go func() {
 		c, err := s.ln.Accept()
 		if err != nil {
-			ach <- acc{err: err}
+			s.hsDone <- err
 			return
 		}
 		raw := c.(*net.TCPConn)
+		if s.cell.State == "write-blocked" {
+			// a small receive buffer: the relay's socket write blocks after a few hundred KiB
+			raw.SetReadBuffer(16 << 10)
+		}
+		rawCh <- raw
+		if s.hsGate != nil {
+			<-s.hsGate
+			if atomic.LoadInt32(&s.hsAbort) != 0 {
+				raw.SetLinger(0)
+				raw.Close()
+				s.hsDone <- errors.New("harness server reset the connection instead of handshaking")
+				return
+			}
+		}
 		tc := tls.Server(raw, &tls.Config{Certificates: []tls.Certificate{pk.Leaf}, NextProtos: []string{"h2"}})
 		if err := tc.Handshake(); err != nil {
 			raw.Close()
-			ach <- acc{err: err}
+			s.hsDone <- err
 			return
 		}
-		ach <- acc{raw: raw, tc: tc}
+		s.tc = tc
+		s.hsDone <- nil
 	}()
 
 	u := &url.URL{Scheme: "https", Host: s.ln.Addr().String(), Path: "/"}
@@ -390,11 +416,9 @@ func (s *session) start() bool {
 	}()
 
 	select {
-	case a := <-ach:
-		if a.err != nil {
-			return s.fail("accept/handshake: %v", a.err)
-		}
-		s.raw, s.tc = a.raw, a.tc
+	case s.raw = <-rawCh:
+	case err := <-s.hsDone:
+		return s.fail("accept: %v", err)
 	case <-time.After(WaitWatchdog):
 		return s.fail("no upstream connection from the relay")
 	}
@@ -403,6 +427,22 @@ func (s *session) start() bool {
 		return s.fail("relay socket %v->%v not found in /proc/self/net/tcp", s.raw.RemoteAddr(), s.raw.LocalAddr())
 	}
 	s.inodeV.Store(s.inode)
+	if s.hsGate != nil {
+		return true // the handshake is completed (or aborted) by runDialing
+	}
+	return s.finishAccept()
+}
+
+// finishAccept waits for the server-side TLS handshake and starts the server endpoint.
+func (s *session) finishAccept() bool {
+	select {
+	case err := <-s.hsDone:
+		if err != nil {
+			return s.fail("server handshake: %v", err)
+		}
+	case <-time.After(WaitWatchdog):
+		return s.fail("server-side TLS handshake did not complete")
+	}
 	s.srv = NewEndpoint("server", s.tc)
 	s.srv.StartServer()
 	s.srvObservable, s.srvAlive = true, true
@@ -687,8 +727,17 @@ func (s *session) establishBlocked(delay int) ([2]string, bool) {
 // direction (sometimes both): one frame in the writer's hand + 15 in the
 // channel, optionally with the reader parked on a further push.
 func (s *session) establishChanFull(delay int) bool {
+	// For the "both sides go away" events the frames in flight are (at least) those of the
+	// direction whose source closes first.
+	must := -1
+	switch s.cell.Event {
+	case "server-then-client-close":
+		must = S2C
+	case "client-then-server-close":
+		must = C2S
+	}
 	if s.rng.Intn(2) == 0 {
-		return s.establishChanFullViaPeer(delay)
+		return s.establishChanFullViaPeer(delay, must)
 	}
 	id, ok := s.openStream()
 	if !ok {
@@ -697,8 +746,10 @@ func (s *session) establishChanFull(delay int) bool {
 	var fill [2]bool
 	if s.rng.Intn(4) == 0 {
 		fill[0], fill[1] = true, true
+	} else if x := s.rng.Intn(2); must >= 0 {
+		fill[must] = true
 	} else {
-		fill[s.rng.Intn(2)] = true
+		fill[x] = true
 	}
 	var over [2]int
 	for dir := 0; dir < 2; dir++ {
@@ -776,8 +827,11 @@ func (s *session) establishChanFull(delay int) bool {
 // terminating event happens. If the delayed direction is the peer, it is
 // delayed by that parked push (no hook marker is possible); if it is F, F's
 // reader is parked at the hook point as usual.
-func (s *session) establishChanFullViaPeer(delay int) bool {
+func (s *session) establishChanFullViaPeer(delay, must int) bool {
 	f := s.rng.Intn(2)
+	if must >= 0 {
+		f = must
+	}
 	peer := 1 - f
 	rcv, snd := s.receiver(f), s.sender(f)
 	acks := rcv.Snapshot().SettingsAcks
@@ -843,11 +897,136 @@ func (s *session) establishChanFullViaPeer(delay int) bool {
 	return true
 }
 
+// establishWriteBlocked: the server grants large windows and then stops
+// reading while the client uploads. The upload goes on (within the credit the
+// relay returns) until the relay's client->server writer goroutine is blocked
+// in the socket write toward the server, its output channel is full and its
+// reader is parked on the next push - all observed in the goroutine dump.
+func (s *session) establishWriteBlocked(delay int) bool {
+	const big = 1 << 30
+	if err := s.srv.Settings(http2.Setting{ID: http2.SettingInitialWindowSize, Val: big}); err != nil {
+		return s.fail("write-blocked: settings: %v", err)
+	}
+	if err := s.srv.WindowUpdate(0, big-65535); err != nil {
+		return s.fail("write-blocked: window update: %v", err)
+	}
+	if !s.pingThrough(s.srv) { // the relay has processed both
+		return false
+	}
+	id, ok := s.openStream()
+	if !ok {
+		return false
+	}
+	s.srv.Pause()
+	s.srvObservable = false // it will never read the relay's close
+	chunk := vh.Stamp(7, 16384)
+	sent := int64(0)
+	start := time.Now()
+	writerBlocked := func() bool {
+		w, p := false, false
+		for _, g := range relayGoroutines(s.base) {
+			if g.HasFrame("crypto/tls.(*Conn).Write") && strings.HasPrefix(g.State, "IO wait") {
+				w = true
+			}
+			if pushBlocked(g) {
+				p = true
+			}
+		}
+		return w && p
+	}
+	for {
+		var credit int64
+		s.cli.Look(func(o *Obs) bool {
+			credit = 65535 + o.WUConn - sent
+			if c := 65535 + o.WUStream[id] - sent; c < credit {
+				credit = c
+			}
+			return true
+		})
+		if credit >= int64(len(chunk)) {
+			if err := s.cli.Data(id, false, chunk); err != nil {
+				return s.fail("write-blocked: upload: %v", err)
+			}
+			sent += int64(len(chunk))
+			continue
+		}
+		// no credit: the relay has stopped reading (or is about to return some)
+		if writerBlocked() {
+			break
+		}
+		if time.Since(start) > WaitWatchdog {
+			return s.fail("write-blocked: after %d bytes the relay's writer is not blocked in the socket write with its reader parked", sent)
+		}
+		time.Sleep(500 * time.Microsecond)
+	}
+	s.delayByPush = delay == C2S
+	s.res.Params["uploaded_bytes_until_stall"] = sent
+	s.res.Params["readers_parked_on_push"] = 1
+	return true
+}
+
+// runDialing: the session ends while the upstream TLS handshake is still in
+// progress (the harness server has accepted the TCP connection but has not
+// started its handshake yet).
+func (s *session) runDialing() {
+	s.srvObservable = false
+	switch s.cell.Event {
+	case "closing":
+		// the client has already sent its preface: once the dial completes nothing else is awaited
+		s.cli.WriteRaw([]byte(ClientPreface))
+		s.cli.Settings()
+		s.cli.Start()
+		s.res.Established = true
+		close(s.closing)
+		s.closed = true
+	case "client-close":
+		k := s.rng.Intn(len(ClientPreface) + 1)
+		s.res.Params["preface_bytes_before_close"] = k
+		if k > 0 {
+			s.cli.WriteRaw([]byte(ClientPreface[:k]))
+		}
+		s.res.Established = true
+		s.cl.Close()
+		s.cliAlive = false
+	case "write-fail-server":
+		// the server resets the connection instead of completing the handshake
+		s.cli.WriteRaw([]byte(ClientPreface))
+		s.cli.Settings()
+		s.cli.Start()
+		s.res.Established = true
+		atomic.StoreInt32(&s.hsAbort, 1)
+	default:
+		s.fail("event %q not defined for the dialing state", s.cell.Event)
+		return
+	}
+	if s.hasReturned() {
+		s.res.Params["returned_before_handshake_completed"] = true
+	}
+	vh.Settle(s.activity, 3, 15*time.Millisecond, 5*time.Second)
+	s.releaseHandshake()
+	// the handshake outcome is the server's business; if it completed, the server reads on
+	select {
+	case err := <-s.hsDone:
+		if err == nil {
+			s.srv = NewEndpoint("server", s.tc)
+			s.srv.StartServer()
+			s.srvObservable = true
+		} else {
+			s.res.Params["server_handshake"] = err.Error()
+		}
+	case <-time.After(WaitWatchdog):
+		s.res.Established = false
+		s.fail("dialing: server-side handshake neither completed nor failed")
+		return
+	}
+	s.oracle()
+}
+
 // armDelay parks direction dir at the reader point holding a marker frame.
 func (s *session) armDelay(dir int, blocked [2]string) bool {
 	if s.delayByPush {
-		// established by establishChanFullViaPeer: observed parked in the goroutine dump
-		s.res.Params["delay_marker"] = "parked-on-push-into-peer-output"
+		// observed parked in the goroutine dump when the state was established
+		s.res.Params["delay_marker"] = "parked-on-push"
 		return true
 	}
 	src := s.sender(dir)
@@ -923,8 +1102,8 @@ func (s *session) fire() bool {
 		s.cc.FailWrites(errInjected)
 		var trig []string
 		x := 1 + s.rng.Intn(3) // bit0: server ping, bit1: client data
-		if len(s.open) == 0 {
-			x = 1
+		if len(s.open) == 0 || s.cell.State == "write-blocked" {
+			x = 1 // (write-blocked: the relay no longer reads the client)
 		}
 		if x&2 != 0 {
 			// the relay acknowledges client DATA with WINDOW_UPDATEs toward the client
@@ -971,6 +1150,40 @@ func (s *session) fire() bool {
 	case "closing":
 		close(s.closing)
 		s.closed = true
+	case "server-then-client-close":
+		// the server closes cleanly (the relay reads EOF), then the client goes away too
+		if s.rng.Intn(2) == 0 {
+			s.res.Params["server_close"] = "half (close_notify+FIN, keeps reading)"
+			s.tc.CloseWrite()
+		} else {
+			s.res.Params["server_close"] = "full"
+			s.srvObservable = false
+			s.tc.Close()
+		}
+		s.srvAlive = false
+		vh.Settle(s.activity, 2, 10*time.Millisecond, 2*time.Second)
+		if s.rng.Intn(2) == 0 {
+			s.res.Params["then"] = "client closes"
+			s.cl.Close()
+			s.cliAlive = false
+		} else {
+			s.res.Params["then"] = "writes toward the client fail"
+			s.cc.FailWrites(errInjected)
+		}
+	case "client-then-server-close":
+		// the client closes cleanly (the relay reads EOF), then the server goes away too
+		s.cl.Close()
+		s.cliAlive = false
+		vh.Settle(s.activity, 2, 10*time.Millisecond, 2*time.Second)
+		s.srvObservable, s.srvAlive = false, false
+		if s.rng.Intn(2) == 0 {
+			s.res.Params["then"] = "server resets"
+			s.raw.SetLinger(0)
+			s.raw.Close()
+		} else {
+			s.res.Params["then"] = "server closes"
+			s.tc.Close()
+		}
 	default:
 		return s.fail("unknown event %q", ev)
 	}
@@ -1033,24 +1246,55 @@ func (s *session) oracle() {
 	s.res.Params["proxy_error"] = fmt.Sprint(s.proxyErr)
 
 	// clause 2: upstream closed when Proxy returns
-	srvEnded := func() bool { d, _ := s.srv.ReadEnded(); return d }
+	srvEnded := func() bool {
+		if s.srv == nil {
+			return false
+		}
+		d, _ := s.srv.ReadEnded()
+		return d
+	}
+	srvErr := func() string {
+		if s.srv == nil {
+			return ""
+		}
+		_, e := s.srv.ReadEnded()
+		return e
+	}
 	sigOpen := "C10:upstream-not-closed:after-return"
 	if s.cell.State == "preface" {
 		sigOpen = "C10:upstream-not-closed:preface-error"
 	}
-	switch s.fdAtReturn {
+	fdAtReturn := s.fdAtReturn
+	if s.cell.State == "dialing" && fdAtReturn == 1 {
+		// Proxy may return while the connection is still being established (the statement speaks of
+		// the connection "it opened"); it must then be closed as soon as it has been opened. Here the
+		// close is awaited instead of being demanded at the instant of the return.
+		sigOpen = "C10:upstream-not-closed:ended-during-dial"
+		s.res.Params["relay_socket_fd_open_at_return"] = true
+		out, _ = s.budget.await(func() bool { return !SocketOpen(s.inode) }, s.activity, func() string { return sigOpen })
+		switch out {
+		case vh.Undecided:
+			s.res.Undecided = "waiting for the upstream connection of an abandoned dial to be closed"
+			return
+		case vh.Happened:
+			fdAtReturn = 0
+		}
+	}
+	switch fdAtReturn {
 	case -1:
 		s.res.Undecided = "relay socket inode unknown when Proxy returned"
 		return
 	case 1:
-		_, rerr := s.srv.ReadEnded()
+		rerr := srvErr()
 		s.violate(sigOpen, "Proxy returned ("+fmt.Sprint(s.proxyErr)+") but the upstream connection it opened was still open at that moment",
 			map[string]interface{}{"relay_socket_fd_open_at_return": true, "relay_socket_fd_open_now": SocketOpen(s.inode),
 				"server_still_reading": s.srvObservable, "server_read_ended": srvEnded(), "server_read_error": rerr,
 				"session_goroutines": gStrings(relayGoroutines(s.base))})
 	default:
-		s.res.Params["relay_socket_fd_open_at_return"] = false
-		if s.srvObservable {
+		if s.fdAtReturn == 0 {
+			s.res.Params["relay_socket_fd_open_at_return"] = false
+		}
+		if s.srvObservable && s.srv != nil {
 			// the close must reach the harness server as EOF / reset
 			out, _ = s.budget.await(srvEnded, s.activity, func() string { return "C10:upstream-not-closed:server-saw-no-eof" })
 			switch out {
@@ -1061,8 +1305,7 @@ func (s *session) oracle() {
 				s.violate("C10:upstream-not-closed:server-saw-no-eof", "Proxy returned and the relay's socket descriptor is gone, but the harness server never read EOF/reset",
 					map[string]interface{}{"session_goroutines": gStrings(relayGoroutines(s.base))})
 			default:
-				_, rerr := s.srv.ReadEnded()
-				s.res.Params["server_saw"] = rerr
+				s.res.Params["server_saw"] = srvErr()
 			}
 		}
 	}
@@ -1102,6 +1345,14 @@ func (s *session) oracle() {
 	}
 }
 
+// releaseHandshake lets the gated harness server go on (once).
+func (s *session) releaseHandshake() {
+	if s.hsGate != nil {
+		close(s.hsGate)
+		s.hsGate = nil
+	}
+}
+
 func (s *session) teardown() {
 	if s.gates != nil {
 		s.gates.ReleaseAll()
@@ -1113,9 +1364,13 @@ func (s *session) teardown() {
 	if s.cl != nil {
 		s.cl.Close()
 	}
-	if s.tc != nil {
+	s.releaseHandshake()
+	if s.raw != nil {
 		s.raw.SetLinger(0)
 		s.raw.Close()
+	}
+	if s.srv != nil {
+		s.srv.Stop()
 	}
 	if s.ln != nil {
 		s.ln.Close()
@@ -1160,6 +1415,10 @@ func RunCell(c Cell, rng *rand.Rand, budget *Budget) *Result {
 		s.runPreface()
 		return res
 	}
+	if c.State == "dialing" {
+		s.runDialing()
+		return res
+	}
 	delay := C2S
 	if c.Delay == "s2c" {
 		delay = S2C
@@ -1178,6 +1437,8 @@ func RunCell(c Cell, rng *rand.Rand, budget *Budget) *Result {
 		blocked, ok = s.establishBlocked(delay)
 	case "chan-full":
 		ok = s.establishChanFull(delay)
+	case "write-blocked":
+		ok = s.establishWriteBlocked(delay)
 	default:
 		s.fail("unknown state %q", c.State)
 	}
